@@ -9,7 +9,8 @@ use std::sync::atomic::{AtomicBool, AtomicU64, Ordering};
 thread_local! {
     /// (addr, write) of every guard this thread holds
     static HELD: RefCell<Vec<(usize, bool)>> = RefCell::new(Vec::new());
-    pub static TRACE: RefCell<Option<Vec<String>>> = RefCell::new(None);
+    /// when enabled: every lock request of this thread as (address, write?, guards held at that moment)
+    pub static TRACE: RefCell<Option<Vec<(usize, bool, usize)>>> = RefCell::new(None);
     static DEADLOCK: std::cell::Cell<bool> = std::cell::Cell::new(false);
 }
 /// did the last request of this thread hit a lock it already holds
@@ -47,7 +48,7 @@ pub fn install_sequential() {
                 }
                 TRACE.with(|t| {
                     if let Some(t) = t.borrow_mut().as_mut() {
-                        t.push(format!("{}{}", if write { "W" } else { "R" }, held_count()));
+                        t.push((addr, write, held_count()));
                     }
                 });
                 if conflict {
@@ -64,4 +65,11 @@ pub fn install_sequential() {
             }),
         }
     }));
+}
+
+pub fn trace_start() {
+    TRACE.with(|t| *t.borrow_mut() = Some(vec![]));
+}
+pub fn trace_take() -> Vec<(usize, bool, usize)> {
+    TRACE.with(|t| t.borrow_mut().take().unwrap_or_default())
 }
